@@ -28,6 +28,9 @@ RULES = {
     'AGG-TABLE': 'each public aggregation method hands over the aggregation class its name promises',
     'REDUCER-NAME': 'each aggregation class uses the pandas reducers its name promises (Count->count, Size->size, Sum->sum, ...)',
     'WINDOW-FIFO': 'window history deques are appended at the right and decayed from the left',
+    'OPERATOR-TABLE': 'every operator method of OperatorMixin maps to the operator function of its name with its operands in '
+                      'the order the Python data model prescribes (reflected methods: swapped); map_partitions rebuilds the '
+                      'positional argument order (partial_by_order inserts the non-stream arguments at their recorded positions)',
     'DECAY-CONSERVES': 'rows leave the window history only into the decayed list: a frame popped from the left is appended to '
                        'it (or is empty), and when the oldest frame is split the decayed head X[:k] and the kept tail X[k:] are '
                        'complementary slices of the same frame at the same position; in diff_iloc the excess is rows - window, '
@@ -1211,3 +1214,85 @@ def check_excess_accounting(ctx, R):
             bad = bad or 'one iteration both pops and splits the oldest frame'
     R.ob('DECAY-CONSERVES', con, 'excess-accounting', bad is None and n > 0, bad or 'no path enters the decay loop',
          ctx.where(fn, loops[0].lineno), None, n)
+
+
+# ----------------------------------------------------------------------------- OPERATOR-TABLE (C06: elementwise expressions)
+_BINARY = {'add', 'sub', 'mul', 'truediv', 'floordiv', 'mod', 'pow', 'lshift', 'rshift', 'and', 'or', 'xor', 'matmul'}
+_COMPARE = {'eq', 'ne', 'lt', 'le', 'gt', 'ge'}
+_UNARY = {'abs', 'neg', 'pos', 'invert', 'inv'}
+
+
+def _operator_expectation(name):
+    """(operator function name, reflected?) prescribed by the Python data model for the special method name, or None"""
+    core = name[2:-2]
+    fn = lambda b: {'and': 'and_', 'or': 'or_'}.get(b, b)
+    if core in _BINARY or core in _COMPARE:
+        return fn(core), False, 2
+    if core.startswith('r') and core[1:] in _BINARY:
+        return fn(core[1:]), True, 2
+    if core in _UNARY:
+        return core, False, 1
+    return None
+
+
+def check_operator_table(ctx, R):
+    from ..symexpr import SymEval, nf
+    M = ctx.model
+    cls = M.cls('streamz.collection', 'OperatorMixin')
+    for mname, fn in sorted(cls.methods.items()):
+        if not (mname.startswith('__') and mname.endswith('__')):
+            continue
+        exp = _operator_expectation(mname)
+        if exp is None:
+            continue
+        opname, reflected, arity = exp
+        con = ctx.construct(fn)
+        params = fn.params()
+        paths = [r for r in SymEval(M, cls).run(fn) if not r.raised]
+        ok, detail = len(paths) == 1 and len(params) == arity, ''
+        if not ok:
+            detail = '%s has %d path(s) / parameters %s' % (mname, len(paths), params)
+        else:
+            got = nf(paths[0].ret)
+            if arity == 1:
+                want = 'self.map_partitions(operator.%s,self)' % opname
+            elif reflected:
+                want = 'self.map_partitions(operator.%s,%s,self)' % (opname, params[1])
+            else:
+                want = 'self.map_partitions(operator.%s,self,%s)' % (opname, params[1])
+            ok = got == want
+            detail = '%s returns %s, the data model prescribes %s' % (mname, got, want)
+        R.ob('OPERATOR-TABLE', con, mname, ok, detail, ctx.where(fn, fn.node.lineno))
+    # the reconstruction of the positional argument order in map_partitions
+    pbo = M.function('streamz.collection', 'partial_by_order')
+    paths = [r for r in SymEval(M, None, name_calls=True).run(pbo) if not r.raised and r.ret is not None]
+    ok, detail = bool(paths), 'no returning path'
+    for r in paths:
+        texts = [nf(c) for c, s_, l in r.calls]
+        lists = [k for k, t in enumerate(texts) if t == 'list(args)']
+        ins = [t for t in texts if any(t.startswith('C%d.%s(' % (k_, m_)) for k_ in lists for m_ in (
+            'insert', 'append', 'extend', 'appendleft', 'pop', 'remove', 'reverse', 'sort', 'clear'))]
+        in_loop = any(l and 'C' in l[-1][0] for c, s_, l in r.calls)
+        call = [t for t in texts if t.startswith("C") and False]
+        if len(lists) != 1:
+            ok, detail = False, 'the positional arguments are not copied once into a list'
+            continue
+        L = 'C%d' % lists[0]
+        # every insert puts the recorded argument at its recorded position: L.insert(FIRST(ELEM(other)), ELEM(other)[1])
+        other = next((nf(c) for c, s_, l in r.calls if isinstance(c, ast.Call) and nf(c.func) == 'kwargs.pop' and c.args
+                      and nf(c.args[0]) == "'other'"), None)
+        ko = next((k for k, (c, s_, l) in enumerate(r.calls) if isinstance(c, ast.Call) and nf(c.func) == 'kwargs.pop' and c.args
+                   and nf(c.args[0]) == "'other'"), None)
+        if ko is None:
+            ok, detail = False, "the recorded (position, argument) pairs are not taken from kwargs['other']"
+            continue
+        O = 'C%d' % ko
+        good_ins = '%s.insert(FIRST(ELEM(%s)),ELEM(%s)[1])' % (L, O, O)
+        if in_loop and not ins:
+            ok, detail = False, 'the recorded non-stream arguments are not inserted into the argument list'
+        if any(t != good_ins for t in ins):
+            ok, detail = False, 'a non-stream argument is not inserted at its recorded position: %s' % [t for t in ins if t != good_ins][:1]
+        final = [c for c, s_, l in r.calls if isinstance(c, ast.Call) and any(isinstance(a, ast.Starred) and nf(a.value) == L for a in c.args)]
+        if len(final) != 1 or nf(r.ret) != 'C%d' % [k for k, (c, s_, l) in enumerate(r.calls) if c is final[0]][0]:
+            ok, detail = False, 'the function is not applied to the rebuilt argument list'
+    R.ob('OPERATOR-TABLE', ctx.construct(pbo), 'argument-order', ok, detail, ctx.where(pbo, pbo.node.lineno), None, len(paths))
